@@ -128,7 +128,7 @@ func c6Check(c *Ctx, lv map[string]int64) {
 		}
 		res := h.Signature.Results()
 		for i := 0; i < res.Len(); i++ {
-			ts := res.At(i).Type().String()
+			ts := TStr(res.At(i).Type())
 			if strings.HasSuffix(ts, "zapcore.CheckWriteHook") || strings.HasSuffix(ts, "zapcore.CheckedEntry") || ts == "bool" {
 				return true
 			}
@@ -1334,7 +1334,7 @@ func c6StdBridge(c *Ctx, rule string, lv map[string]int64) {
 							return ""
 						}
 						if n := len(x.Results); n > 0 {
-							if _, isErr := types.Unalias(x.Results[n-1].Type()).Underlying().(*types.Interface); isErr && x.Results[n-1].Type().String() == "error" {
+							if _, isErr := types.Unalias(x.Results[n-1].Type()).Underlying().(*types.Interface); isErr && TStr(x.Results[n-1].Type()) == "error" {
 								if isNil, known := st.IsNil(x.Results[n-1]); known {
 									if isNil {
 										return "ret-ok"
